@@ -165,7 +165,7 @@ func famSesHs(t *testing.T, r *Rec) {
 			}
 		}
 	}
-	for _, c := range cfgs {
+	for ci, c := range cfgs {
 		lines := []string{fmt.Sprintf("ses cfg %d %d 1000 %d %s %s %s %s %s - hdr", c.I, c.T, c.max, c.transports, b01(c.upgrades), b01(c.eio3), c.initial, b01(c.cookie))}
 		enabled := c.transports
 		if enabled == "default" {
@@ -183,11 +183,14 @@ func famSesHs(t *testing.T, r *Rec) {
 				tr = strings.Split(enabled, ",")[0]
 			}
 			eio := 4
+			eioTok := "4"
 			if c.eio3 && i == 1 {
+				// everything but EIO=4 is revision 3: the parameter absent, another number, not a number
 				eio = 3
+				eioTok = []string{"3", "-", "2", "5", "abc"}[(ci+len(c.transports))%5]
 			}
 			hss = append(hss, hs{tr, eio, i == 2})
-			lines = append(lines, fmt.Sprintf("ses hs %s %d %s -", tr, eio, b01(i == 2)))
+			lines = append(lines, fmt.Sprintf("ses hs %s %s %s -", tr, eioTok, b01(i == 2)))
 			if tr == "polling" && c.initial != "-" {
 				lines = append(lines, fmt.Sprintf("ses poll s%d initial", i)) // the initial packet follows in the next cycle
 			}
@@ -372,6 +375,7 @@ func pkSummary(pk []epkt) string {
 
 // famSesHb: heartbeat timing on a grid of client delays (C07).
 func famSesHb(t *testing.T, r *Rec) {
+	hbExtra(t, r)
 	type delay struct {
 		name string
 		d    func(I, T int) int // when the client answers, relative to the ping; <0: never
@@ -525,6 +529,93 @@ func famSesHb(t *testing.T, r *Rec) {
 	}
 }
 
+// hbExtra: heartbeat timelines with ordinary traffic and with pongs nobody asked for.
+func hbExtra(t *testing.T, r *Rec) {
+	const I, T = 400, 200
+	for _, tr := range []string{"polling", "websocket"} {
+		msg := func(proto int) string {
+			if tr == "polling" {
+				if proto == 3 {
+					return "ses post s0 t 1 " + hx([]byte("2:4x"))
+				}
+				return "ses post s0 t 1 " + hx([]byte("4x"))
+			}
+			return "ses frame 0 t " + hx([]byte("4x"))
+		}
+		poll := func(lines []string) []string {
+			if tr == "polling" {
+				return append(lines, "ses poll s0")
+			}
+			return lines
+		}
+		type scen struct {
+			name  string
+			proto int
+			lines []string
+			exp   []string
+		}
+		var scens []scen
+		cfg := fmt.Sprintf("ses cfg %d %d 1000 100000 default 1 1 - 0 -", I, T)
+		hs := func(proto int) []string { return []string{cfg, fmt.Sprintf("ses hs %s %d 0 -", tr, proto)} }
+		// a message after the pong must not bring the cancelled deadline back
+		l := hs(4)
+		l = append(l, "ses adv 400")
+		l = poll(l)
+		l = append(l, pongOp(tr), "ses adv 100", msg(4), "ses adv 299", "ses adv 1")
+		l = poll(l)
+		l = append(l, pongOp(tr), "ses adv 50", msg(4), "ses adv 349", "ses adv 1")
+		scens = append(scens, scen{"message-after-pong", 4, l, []string{"400:ping", "400:heartbeat", "800:ping", "800:heartbeat", "1200:ping"}})
+		// a silent peer is closed at the deadline even if it keeps sending messages
+		l = hs(4)
+		l = append(l, "ses adv 400")
+		l = poll(l)
+		l = append(l, "ses adv 100", msg(4), "ses adv 99", "ses adv 1", "ses adv 5")
+		scens = append(scens, scen{"message-instead-of-pong", 4, l, []string{"400:ping", "600:close:ping_timeout"}})
+		// a pong nobody asked for moves the next ping one full interval on, and there is only one
+		l = hs(4)
+		l = append(l, "ses adv 200", pongOp(tr), "ses adv 399", "ses adv 1")
+		l = poll(l)
+		l = append(l, pongOp(tr), "ses adv 399", "ses adv 1")
+		scens = append(scens, scen{"unsolicited-pong", 4, l, []string{"200:heartbeat", "600:ping", "600:heartbeat", "1000:ping"}})
+		// two pongs for one ping: still one ping per interval, and the peer is never closed
+		l = hs(4)
+		l = append(l, "ses adv 400")
+		l = poll(l)
+		l = append(l, pongOp(tr), pongOp(tr), "ses adv 400")
+		l = poll(l)
+		l = append(l, pongOp(tr), pongOp(tr), "ses adv 400")
+		l = poll(l)
+		l = append(l, pongOp(tr), "ses adv 399")
+		scens = append(scens, scen{"duplicate-pong", 4, l, []string{"400:ping", "400:heartbeat", "400:heartbeat", "800:ping", "800:heartbeat", "800:heartbeat", "1200:ping", "1200:heartbeat"}})
+		// revision 3: only a ping moves the deadline, a message does not
+		l = hs(3)
+		l = append(l, "ses adv 100", msg(3), "ses adv 499", "ses adv 1", "ses adv 5")
+		scens = append(scens, scen{"v3-message-does-not-move-deadline", 3, l, []string{"600:close:ping_timeout"}})
+		for _, sc := range scens {
+			outs := sesRun(t, sc.lines)
+			r.scenarios++
+			var got []string
+			for i, ln := range sc.lines {
+				r.Op(ln, outs[i])
+				for _, e := range parseObs(outs[i]).events {
+					switch {
+					case e.who == "s0" && e.name == "packetCreate" && e.args[0] == "ping":
+						got = append(got, fmt.Sprintf("%d:ping", e.t))
+					case e.who == "s0" && e.name == "heartbeat":
+						got = append(got, fmt.Sprintf("%d:heartbeat", e.t))
+					case e.who == "s0" && e.name == "close":
+						got = append(got, fmt.Sprintf("%d:close:%s", e.t, e.args[0]))
+					}
+				}
+			}
+			r.Cover(fmt.Sprintf("hb/extra/%s/%s", tr, sc.name))
+			if strings.Join(got, " ") != strings.Join(sc.exp, " ") {
+				r.Violate("C07", fmt.Sprintf("C07/%s/%s", sc.name, tr), fmt.Sprintf("I=%d T=%d: heartbeat timeline %v, want %v", I, T, got, sc.exp), sc.lines)
+			}
+		}
+	}
+}
+
 func pongOp(tr string) string {
 	if tr == "polling" {
 		return "ses post s0 t 1 33"
@@ -591,6 +682,12 @@ func famSesHostile(t *testing.T, r *Rec) {
 		}
 		body := append([]byte("4"), bytes_repeat('y', sz-1)...)
 		add(fmt.Sprintf("limit/ws-frame/size=%d", sz), "C10", "ses hs websocket 4 0 -", "ses frame 0 t "+hx(body), "ses frame 0 t 346f6b")
+	}
+	// the limit on a connection that became the session's transport through an upgrade
+	for _, sz := range []int{100, 101, 5000} {
+		body := append([]byte("4"), bytes_repeat('z', sz-1)...)
+		add(fmt.Sprintf("limit/ws-frame-after-upgrade/size=%d", sz), "C10", "ses hs polling 4 0 -", "ses ws s1 4 0", "ses frame 0 t 3270726f6265",
+			"ses adv 100", "ses poll s1", "ses frame 0 t 35", "ses frame 0 t "+hx(body), "ses frame 0 t 346f6b")
 	}
 	add("limit/post/multi-packet-above", "C10", "ses hs polling 4 0 -", "ses post s1 t 1 "+hx([]byte("4"+string(bytes_repeat('a', 60))+"\x1e4"+string(bytes_repeat('b', 60)))))
 
@@ -875,6 +972,99 @@ func famSesUpg(t *testing.T, r *Rec) {
 			r.Violate("C08", "C08/refused-candidate-disturbed-session", fmt.Sprintf("session is %v", st), lines)
 		}
 	}
+	// a second candidate before the first one has probed
+	{
+		lines := []string{"ses cfg 25000 20000 1000 100000 default 1 0 - 0 -", "ses hs polling 4 0 -", "ses ws s0 4 0", "ses ws s0 4 0",
+			"ses frame 1 t 3270726f6265", "ses frame 1 t 35", "ses frame 0 t 3270726f6265", "ses adv 100", "ses poll s0", "ses frame 0 t 35", "ses obs"}
+		outs := sesRun(t, lines)
+		r.scenarios++
+		upgrades, upgradings := 0, 0
+		for i, l := range lines {
+			r.Op(l, outs[i])
+			for _, e := range parseObs(outs[i]).events {
+				if e.who == "s0" && e.name == "upgrade" {
+					upgrades++
+				}
+				if e.who == "s0" && e.name == "upgrading" {
+					upgradings++
+				}
+			}
+		}
+		r.Cover("upg/second-candidate-before-probe")
+		if parseObs(outs[3]).ended[1] == "" {
+			r.Violate("C08", "C08/second-candidate-before-probe-entertained", "a second candidate arriving before the first one's probe was not closed: "+outs[3], lines[:4])
+		}
+		if upgrades != 1 || upgradings != 1 {
+			r.Violate("C08", "C08/switch-count", fmt.Sprintf("%d upgrading and %d upgrade events, want 1 and 1", upgradings, upgrades), lines)
+		}
+	}
+	// long after a completed upgrade (every timer of the attempt has had its chance) the session is still there;
+	// then it closes, and the registry forgets it
+	for _, how := range []string{"completed", "failed", "timed-out"} {
+		for _, closeHow := range []string{"app", "peer"} {
+			U := 1000
+			lines := []string{fmt.Sprintf("ses cfg 25000 20000 %d 100000 default 1 0 - 0 -", U), "ses hs polling 4 0 -", "ses ws s0 4 0"}
+			switch how {
+			case "completed":
+				lines = append(lines, "ses frame 0 t 3270726f6265", "ses adv 100", "ses poll s0", "ses frame 0 t 35")
+			case "failed":
+				lines = append(lines, "ses frame 0 t 7a7a")
+			case "timed-out":
+				lines = append(lines, fmt.Sprintf("ses adv %d", U+1))
+			}
+			lines = append(lines, fmt.Sprintf("ses adv %d", 3*U), "ses send s0 t 6d31 0 0 -")
+			if how == "completed" {
+				lines = append(lines, "ses frame 0 t 346331")
+			} else {
+				lines = append(lines, "ses poll s0", "ses post s0 t 1 346331")
+			}
+			lines = append(lines, "ses obs")
+			mid := len(lines) - 1
+			switch {
+			case closeHow == "app":
+				lines = append(lines, "ses close s0 1")
+			case how == "completed":
+				lines = append(lines, "ses drop 0")
+			default:
+				lines = append(lines, "ses post s0 t 1 31")
+			}
+			lines = append(lines, "ses obs", "ses poll s0")
+			outs := sesRun(t, lines)
+			r.scenarios++
+			var srvMsgs []string
+			for i, l := range lines {
+				r.Op(l, outs[i])
+				for _, e := range parseObs(outs[i]).events {
+					if e.who == "s0" && e.name == "message" {
+						srvMsgs = append(srvMsgs, string(unhx(e.args[1])))
+					}
+				}
+			}
+			r.Cover(fmt.Sprintf("upg/afterwards/%s/%s", how, closeHow))
+			m := parseObs(outs[mid])
+			wantTr := "polling"
+			if how == "completed" {
+				wantTr = "websocket"
+			}
+			if st := m.states[0]; st[0] != "open" || st[1] != wantTr || strings.Join(srvMsgs, ",") != "c1" {
+				r.Violate("C08", fmt.Sprintf("C08/session-lost-after-attempt/%s", how), fmt.Sprintf("long after a %s upgrade attempt the session is %v (messages delivered: %v), want open/%s and c1", how, st, srvMsgs, wantTr), lines[:mid+1])
+			}
+			end := parseObs(outs[len(outs)-2])
+			if end.states[0][0] != "closed" || end.reg != "-:0" {
+				r.Violate("C04", fmt.Sprintf("C04/closed-session-still-registered/after-%s-upgrade", how), fmt.Sprintf("after the close the session is %v and the registry is %s", end.states[0], end.reg), lines[:len(lines)-1])
+			}
+			last := parseObs(outs[len(outs)-1])
+			okUnknown := false
+			for _, rs := range last.resps {
+				if rs.status == 400 && strings.Contains(string(unhx(rs.body)), "Session ID unknown") {
+					okUnknown = true
+				}
+			}
+			if !okUnknown {
+				r.Violate("C04", fmt.Sprintf("C04/closed-session-reachable/after-%s-upgrade", how), "a poll naming the closed session was not answered 'Session ID unknown': "+outs[len(outs)-1], lines)
+			}
+		}
+	}
 }
 
 func init() {
@@ -890,7 +1080,7 @@ func acceptNames(ae string) map[string]bool {
 		ok := name != ""
 		for _, p := range f[1:] {
 			p = strings.ReplaceAll(strings.TrimSpace(p), " ", "")
-			if p == "q=0" || p == "q=0.0" || p == "q=0.00" || p == "q=0.000" {
+			if p == "q=0" || p == "q=0.0" || p == "q=0.00" || p == "q=0.000" || p == "q=0." {
 				ok = false
 			}
 		}
@@ -904,7 +1094,8 @@ func acceptNames(ae string) map[string]bool {
 // famSesResp: poll responses as HTTP messages (C16): payload, Content-Type,
 // Content-Length, Content-Encoding negotiation, and the JSONP wrapper.
 func famSesResp(t *testing.T, r *Rec) {
-	aes := []string{"-", "gzip", "deflate", "br", "zstd", "gzip, deflate, br", "identity", "abracadabra", "x-gzip2", "gzip;q=0", "deflate;q=0, gzip", "br;q=0.5, zstd;q=0.1", "GZIP"}
+	aes := []string{"-", "gzip", "deflate", "br", "zstd", "gzip, deflate, br", "identity", "abracadabra", "x-gzip2", "gzip;q=0", "deflate;q=0, gzip", "br;q=0.5, zstd;q=0.1", "GZIP",
+		"gzip;q=0.0", "gzip;q=0.000, br;q=1.0", "gzip;q=0., deflate", "gzip; q=0.00 , zstd"}
 	for _, thr := range []string{"-", "16", "100000"} {
 		for ai, ae := range aes {
 			for _, compressFlag := range []bool{true, false} {
